@@ -35,6 +35,7 @@ type HarnessSpec struct {
 	Redirect map[string]string     `json:"redirect"`
 	RedirectSet string             `json:"redirect_set"`
 	ForkIn  []string               `json:"fork_in"`
+	Havoc   []string               `json:"havoc"`
 }
 
 type Props struct {
@@ -133,6 +134,9 @@ func main() {
 				}
 				for _, f := range h.ForkIn {
 					e.ForkIn[expandName(f)] = true
+				}
+				for _, f := range h.Havoc {
+					e.Havoc[expandName(f)] = true
 				}
 			}
 		}
@@ -373,6 +377,9 @@ func runProp(prop, tier string, workers int, debug bool, only string, noReplay b
 				}
 				for _, f := range j.h.ForkIn {
 					e.ForkIn[expandName(f)] = true
+				}
+				for _, f := range j.h.Havoc {
+					e.Havoc[expandName(f)] = true
 				}
 				e.KnownOpen = map[string]bool{}
 				for id := range openKnown {
